@@ -35,7 +35,7 @@ Rows      == IF HasRows THEN ndJsonDeserialize(IOEnv.ROWS) ELSE <<>>
 NK == Len(KindRows)
 KindOf(i) == [dv |-> KindRows[i].dv, f |-> SetOfMask[KindRows[i].m]]
 KindT  == TLCEval([i \in 1..NK |-> KindOf(i)])
-GroupT == TLCEval([v \in Versions |-> {i \in 1..NK : KindRows[i].v = v}])
+GroupT == TLCEval([v \in Versions |-> TLCEval({i \in 1..NK : KindRows[i].v = v})])
 GroupSeqT == TLCEval([v \in Versions |-> SelectSeq([i \in 1..NK |-> i], LAMBDA i : KindRows[i].v = v)])
 LeM(i, j) == MatRows[i].le[j]
 EqM(i, j) == MatRows[i].eq[j]
